@@ -29,6 +29,7 @@ type ssoP struct {
 	Persist   string // CreateAuthRequest answer: "" ok | error | empty-id | error-ctx-deadline | error-ctx-canceled
 	StoreLookup string // how the storage matches entity IDs: "" exact | case-insensitive | trailing-slash
 	Lookup    string // GetEntityByID answer: "" ok | error | error-ctx-deadline | error-ctx-canceled
+	KeyFault  string // GetResponseSigningKey answer during the SSO request: "" ok | error | nil-record | key-without-certificate | certificate-without-key
 	// --- message content
 	Issuer   string // "" a | b | absent | empty | padded | unregistered | case | slash | a+evil | evil+a
 	ID       string // "" ok | absent | empty
@@ -102,6 +103,12 @@ var ssoTimes = map[string]func() string{
 	"date":  func() string { return world.Now.Format("2006-01-02") },
 	"tz":    func() string { return world.Now.Add(-time.Hour).Format("2006-01-02T15:04:05+00:00") },
 	"tz+":   func() string { return world.Now.Add(time.Hour).Format("2006-01-02T15:04:05+00:00") },
+	// xs:dateTime with a numeric zone designator; the instant is what counts, not the wall-clock digits
+	"zone+past":   func() string { return world.Now.Add(-time.Hour).In(time.FixedZone("", 2*3600)).Format("2006-01-02T15:04:05-07:00") },     // digits read now+1h
+	"zone-future": func() string { return world.Now.Add(30 * time.Minute).In(time.FixedZone("", -(3*3600 + 1800))).Format("2006-01-02T15:04:05-07:00") }, // digits read now-3h
+	"zone-past":   func() string { return world.Now.Add(-time.Hour).In(time.FixedZone("", -(3*3600 + 1800))).Format("2006-01-02T15:04:05-07:00") },
+	"zone+future": func() string { return world.Now.Add(time.Hour).In(time.FixedZone("", 2*3600)).Format("2006-01-02T15:04:05-07:00") },
+	"zone-15future": func() string { return world.Now.Add(10 * time.Minute).In(time.FixedZone("", -900)).Format("2006-01-02T15:04:05-07:00") },
 	"lowz":  func() string { return strings.ToLower(world.Now.Add(-time.Hour).Format("2006-01-02T15:04:05Z")) },
 	"nofrac-": func() string { return world.Now.Add(-time.Hour).Format("2006-01-02T15:04:05Z") },
 	"nofrac+": func() string { return world.Now.Add(time.Hour).Format("2006-01-02T15:04:05Z") },
@@ -213,6 +220,10 @@ func ssoBuild(p ssoP) (*world.World, *http.Request, *ssoTruth) {
 	case "":
 	default:
 		panic("ssoBuild: Persist " + p.Persist)
+	}
+	if p.KeyFault != "" {
+		w.Store.FaultAt("GetResponseSigningKey", 1, p.KeyFault)
+		t.Conformant = false // the environment, not the message, is off: no acceptance is demanded
 	}
 	switch p.Lookup {
 	case "error":
@@ -710,6 +721,8 @@ func (p *ssoP) set(name, val string) {
 		p.Persist = val
 	case "Lookup":
 		p.Lookup = val
+	case "KeyFault":
+		p.KeyFault = val
 	case "StoreLookup":
 		p.StoreLookup = val
 	case "Issuer":
